@@ -5,7 +5,9 @@ Line-protocol driver for the C12 `Exec` model (`lake build c12drv`). Several mac
 side (one per simulated validator), each with its own `Env`.
 
 Requests (numbers decimal, rounds may be negative, ids `nil` or decimal):
-  new  <mid> <node> <height> <total> <rot> <validMod> <validRem> <valBase> <valStep> <propMul> <powers,> <proposers,>
+  new  <mid> <node> <height> <total> <rot> <validMod> <validRem> <valBase> <valStep> <propMul> <powers,> <proposers,> <altTotal> <altPowers,>
+  sync <mid> <h> <r> <sender> <validRound> <value> (<h> <r> <sender> <id>)*   -- ProcessSync
+  wal  <mid> start <h> | prop … | pv … | pc … | to …                          -- ProcessWAL
   start <mid> <round>
   prop <mid> <h> <r> <sender> <validRound> <value>
   pv   <mid> <h> <r> <sender> <id>
@@ -13,7 +15,6 @@ Requests (numbers decimal, rounds may be negative, ids `nil` or decimal):
   to   <mid> <step 0|1|2> <h> <r>
   height <mid>
   fq <N>                      -- the thresholds f and q on 64-bit unsigned arithmetic
-  fqfixed <N>                 -- same with the overflow-free quorum formula
 Answer of an input: `<actions> # <rules fired>`, both space separated, `-` when empty.
 -/
 open Juno.Proto Juno.C12
@@ -28,10 +29,15 @@ abbrev DState := List Slot
 def parseList (s : String) : Option (List Nat) :=
   if s == "-" then some [] else (s.splitOn ",").mapM (fun w => w.toNat?)
 
-def mkEnv (total rot vMod vRem vBase vStep pMul : Nat) (powers tbl : List Nat) : Env :=
-  { totalPower := fun _ => total,
+/-- Validator set of height `h`: `powers`/`total`, or — for odd heights when `altPowers` is not
+empty — `altPowers`/`altTotal` (validator sets that change from height to height). -/
+def mkEnv (total rot vMod vRem vBase vStep pMul : Nat) (powers tbl : List Nat) (altTotal : Nat)
+    (altPowers : List Nat) : Env :=
+  let useAlt (h : Nat) : Bool := !altPowers.isEmpty && h % 2 == 1
+  { totalPower := fun h => if useAlt h then altTotal else total,
     power := fun h a =>
-      if a < powers.length then powers.getD ((a + rot * h) % powers.length) 0 else 0,
+      let ps := if useAlt h then altPowers else powers
+      if a < ps.length then ps.getD ((a + rot * h) % ps.length) 0 else 0,
     proposer := fun h r =>
       if tbl.isEmpty then 0
       else tbl.getD (((Int.ofNat (h * pMul) + r) % (Int.ofNat tbl.length)).toNat) 0,
@@ -107,13 +113,24 @@ def preLoop (env : Env) (m : Machine) : Input → Option (Machine × Option Roun
     if ok && m.isHeightStarted && v.height == m.state.height then some ({ m with vc := vc }, some v.round)
     else none
   | .timeout s h r => some ((m.onTimeout env s h r).1, none)
+  | .sync _ _ => none
+  | .wal _ => none
+
+/-- `ProcessWAL` is a dispatch: its rule trace is the one of the call it dispatches to. -/
+def unWal : Input → Input
+  | .wal (.start _) => .start 0
+  | .wal (.proposal p) => .proposal p
+  | .wal (.prevote v) => .prevote v
+  | .wal (.precommit v) => .precommit v
+  | .wal (.timeout s h r) => .timeout s h r
+  | i => i
 
 def findSlot (st : DState) (mid : Nat) : Option Slot := st.find? (fun s => s.mid == mid)
 
 def putSlot (st : DState) (s : Slot) : DState := s :: st.filter (fun x => x.mid != s.mid)
 
 def loopFuelOk (env : Env) (m : Machine) (i : Input) : Bool :=
-  match preLoop env m i with
+  match preLoop env m (unWal i) with
   | none => true
   | some (m0, rr) => (Machine.processLoopAux env rr loopFuel m0 []).2.2
 
@@ -125,7 +142,7 @@ def runInput (st : DState) (mid : String) (i : Input) : DState × String :=
     | none => (st, "bad-op")
     | some s =>
       let (m', acts) := s.m.step s.env i
-      let rules := match preLoop s.env s.m i with
+      let rules := match preLoop s.env s.m (unWal i) with
         | none => []
         | some (m0, rr) => loopRules s.env rr loopFuel m0
       if !loopFuelOk s.env s.m i then (st, "fuel-exhausted") else
@@ -141,16 +158,26 @@ def parseStep (s : String) : Option Step :=
   | "2" => some .precommit
   | _ => none
 
+/-- precommits of a `sync` request: groups of four words `h r sender id` -/
+def parseVotes : List String → Option (List Vote)
+  | [] => some []
+  | h :: r :: s :: id :: rest =>
+    match h.toNat?, r.toInt?, s.toNat?, parseId id, parseVotes rest with
+    | some h, some r, some s, some id, some vs => some (⟨h, r, s, id⟩ :: vs)
+    | _, _, _, _, _ => none
+  | _ => none
+
 def step (st : DState) (line : String) : DState × String :=
   match words line with
-  | ["new", mid, node, h, total, rot, vMod, vRem, vBase, vStep, pMul, powers, tbl] =>
+  | ["new", mid, node, h, total, rot, vMod, vRem, vBase, vStep, pMul, powers, tbl, altTotal, altPowers] =>
     match mid.toNat?, node.toNat?, h.toNat?, total.toNat?, rot.toNat?, vMod.toNat?, vRem.toNat?,
-          vBase.toNat?, vStep.toNat?, pMul.toNat?, parseList powers, parseList tbl with
+          vBase.toNat?, vStep.toNat?, pMul.toNat?, parseList powers, parseList tbl, altTotal.toNat?,
+          parseList altPowers with
     | some mid, some node, some h, some total, some rot, some vMod, some vRem, some vBase,
-      some vStep, some pMul, some powers, some tbl =>
-      let env := mkEnv total rot vMod vRem vBase vStep pMul powers tbl
+      some vStep, some pMul, some powers, some tbl, some altTotal, some altPowers =>
+      let env := mkEnv total rot vMod vRem vBase vStep pMul powers tbl altTotal altPowers
       (putSlot st ⟨mid, env, Machine.new env node h⟩, "ok")
-    | _, _, _, _, _, _, _, _, _, _, _, _ => (st, "bad-op")
+    | _, _, _, _, _, _, _, _, _, _, _, _, _, _ => (st, "bad-op")
   | ["start", mid, r] =>
     match r.toInt? with
     | some r => runInput st mid (.start r)
@@ -171,6 +198,30 @@ def step (st : DState) (line : String) : DState × String :=
     match parseStep sp, h.toNat?, r.toInt? with
     | some sp, some h, some r => runInput st mid (.timeout sp h r)
     | _, _, _ => (st, "bad-op")
+  | "sync" :: mid :: h :: r :: s :: vr :: v :: rest =>
+    match h.toNat?, r.toInt?, s.toNat?, vr.toInt?, v.toNat?, parseVotes rest with
+    | some h, some r, some s, some vr, some v, some vs => runInput st mid (.sync ⟨h, r, s, vr, v⟩ vs)
+    | _, _, _, _, _, _ => (st, "bad-op")
+  | ["wal", mid, "start", h] =>
+    match h.toNat? with
+    | some h => runInput st mid (.wal (.start h))
+    | none => (st, "bad-op")
+  | ["wal", mid, "prop", h, r, s, vr, v] =>
+    match h.toNat?, r.toInt?, s.toNat?, vr.toInt?, v.toNat? with
+    | some h, some r, some s, some vr, some v => runInput st mid (.wal (.proposal ⟨h, r, s, vr, v⟩))
+    | _, _, _, _, _ => (st, "bad-op")
+  | ["wal", mid, "pv", h, r, s, id] =>
+    match h.toNat?, r.toInt?, s.toNat?, parseId id with
+    | some h, some r, some s, some id => runInput st mid (.wal (.prevote ⟨h, r, s, id⟩))
+    | _, _, _, _ => (st, "bad-op")
+  | ["wal", mid, "pc", h, r, s, id] =>
+    match h.toNat?, r.toInt?, s.toNat?, parseId id with
+    | some h, some r, some s, some id => runInput st mid (.wal (.precommit ⟨h, r, s, id⟩))
+    | _, _, _, _ => (st, "bad-op")
+  | ["wal", mid, "to", sp, h, r] =>
+    match parseStep sp, h.toNat?, r.toInt? with
+    | some sp, some h, some r => runInput st mid (.wal (.timeout sp h r))
+    | _, _, _ => (st, "bad-op")
   | ["height", mid] =>
     match mid.toNat? with
     | some mid =>
@@ -182,11 +233,6 @@ def step (st : DState) (line : String) : DState × String :=
     match n.toNat? with
     | some n =>
       if n < 2 ^ 64 then (st, s!"{fOf n} {qOf n}") else (st, "bad-op")
-    | none => (st, "bad-op")
-  | ["fqfixed", n] =>
-    match n.toNat? with
-    | some n =>
-      if n < 2 ^ 64 then (st, s!"{fOf n} {(qUFix (UInt64.ofNat n)).toNat}") else (st, "bad-op")
     | none => (st, "bad-op")
   | _ => (st, "bad-op")
 
